@@ -9,7 +9,7 @@ CHECKS = {
     "C10": dict(
         technique="runtime postcondition on get_displacement_tensor/get_distances (direct + in situ in SBC/Classifier) vs brute-force minimum-image oracle; installed binding, fresh build and ASan+UBSan build of the C++ sources",
         text="Every observed call of the displacement-tensor API (thousands of random small systems over all cell shapes/pbc masks/cutoff classes, plus the calls SBC and Classifier really make) is judged pair-by-pair against an independent brute-force minimum-image oracle; the native sources are rebuilt from the working tree and also run under ASan+UBSan. Held = no judged pair deviated; nothing is claimed about inputs outside the sampled family.",
-        note="Trusted: numpy linear algebra, ASE find_mic (cross-check), the pybind11 stand-in + ctypes adapter (validated bit-for-bit against the installed binding at setup). Sanitizers only see executed paths.",
+        note="Trusted: numpy linear algebra (the brute-force oracle is cross-checked by a wide exhaustive lattice search on sampled pairs), the pybind11 stand-in + ctypes adapter (validated bit-for-bit against the installed binding at setup). Sanitizers only see executed paths.",
         ref="DESIGN.md §4, §6 C10"),
     "C16": dict(
         technique="runtime postconditions on get_extended_system / get_cell_list / neighbour queries / get_matches(_simple) (direct + in situ) vs brute-force image enumeration; structural walk of the live cell-list bins; installed binding, fresh build, ASan+UBSan build",
